@@ -139,7 +139,7 @@ func postDominators(fn *ssa.Function) *postDom {
 }
 
 func optionFieldsIn(v ssa.Value, into map[string]bool) {
-	backSlice(v, func(x ssa.Value) bool {
+	sliceCond(v, func(x ssa.Value) bool {
 		switch y := x.(type) {
 		case *ssa.FieldAddr:
 			if namedTypeName(y.X.Type()) == "config.Options" {
